@@ -225,7 +225,10 @@ fn transform(
     // 10 for angular
     let decimals = options
         .decimals
-        .unwrap_or(if operands[0][0] > 1000. { 5 } else { 10 });
+        .unwrap_or_else(|| match operands.first() {
+            Some(first) if first[0] > 1000. => 5,
+            _ => 10,
+        });
 
     // Finally output the transformed coordinates
     for coord in operands {
